@@ -296,7 +296,7 @@ var (
 	c07RePath    = regexp.MustCompile(`[^\s"]*/[^\s"]*`)
 	c07ReTrace   = regexp.MustCompile(`^TRACE: [0-9 ]*[+-]? *`)
 	c07ReUpper   = regexp.MustCompile(`\b[A-Z][A-Z0-9_.]{2,}\b`)
-	c07ReSummary = regexp.MustCompile(`^text: (_ errors?)?(, | and )?(_ warnings?)?( and )?(_ notes?)? found\.$`)
+	c07ReSummary = regexp.MustCompile(`^text: ((_ errors?)?(, | and )?(_ warnings?)?( and )?(_ notes?)? found\.|Looks fine\.|\(Run _ to .*\))$`)
 )
 
 func c07Norm(msg string) string {
@@ -395,8 +395,8 @@ func c07DiffKinds(a, b string) (string, []string) {
 	for _, i := range ib {
 		kinds[kindOf(ub[i])] = true
 	}
-	// the summary line is a function of the number of diagnostic lines: when the multisets of
-	// diagnostics differ, a different summary is a consequence, not a difference of its own
+	// the summary line, "Looks fine." and the hints are functions of the diagnostics printed: when the
+	// multisets of diagnostics differ, a different final block is a consequence, not a difference of its own
 	diagContent := false
 	for k := range kinds {
 		if what == "content" && !strings.HasPrefix(k, "text: ") {
@@ -730,6 +730,9 @@ func runC07(ctx *Ctx) *Result {
 	for k, v := range mapMax {
 		res.Count("mapsize.max."+k, v)
 	}
+	if res.Broken == "" {
+		c07RegistryStage(ctx, res, rng, p)
+	}
 	res.DistinctNontrivial = len(nontrivial)
 	res.Rule = fmt.Sprintf("a case = (generated tree, cwd, argv); every case is run %d times in fresh processes and %d times inside child processes that run a seeded permutation of the cases of %d trees each (fresh G per run), all outputs compared byte for byte with the first fresh run. Non-trivial = a case for which the shim's probe saw at least 2 of the long-lived audited maps (master sites, tools, doc/CHANGES entries, user-defined variables) with >= 3 keys; the per-package maps (PLIST files/dirs, includes, options, SUBST, scopes) have >= 3 keys in every Rich tree by construction. Go draws a fresh random start for every `range`; for a loop over >= 3 keys whose order reaches the output, k independent runs all agree with probability <= (1/3)^(k-1) (only the first key matters) resp. (1/6)^(k-1) (the whole order of 3 keys matters): with %d runs per case that is <= %.1e per case, and every audited loop is reached by dozens of cases.",
 		p.nFresh, p.nSeq, p.batch, p.nFresh+p.nSeq, pow(1.0/3, p.nFresh+p.nSeq-1))
@@ -759,6 +762,133 @@ func runC07(ctx *Ctx) *Result {
 		"the trees are not modified between the runs (cases with -F run on identical copies)",
 	}
 	return res
+}
+
+// c07RegistryStage: pairs of trees that register / use a name of a per-run registry, run in one
+// process in the orders A,B,A and B,A,B (c07gen.go, "registry pairs"); every run = its fresh run.
+func c07RegistryStage(ctx *Ctx, res *Result, rng *Rng, p c07Params) {
+	npairs := 6
+	if ctx.Tier == "thorough" {
+		npairs = 30
+	}
+	type pair struct{ a, b *GenTree }
+	pairs := make([]pair, npairs)
+	rngs := make([]*Rng, npairs)
+	for i := range rngs {
+		rngs[i] = rng.Fork()
+	}
+	parallelFor(npairs, func(i int) {
+		a, b := c07GenRegistryPair(rngs[i], filepath.Join(ctx.Work, fmt.Sprintf("regA%d", i)), filepath.Join(ctx.Work, fmt.Sprintf("regB%d", i)), i)
+		pairs[i] = pair{a, b}
+	})
+	var cases []c07Case
+	type idx struct{ a, b int }
+	perPair := make([][]idx, npairs) // per pair: (case index in A, in B) for every feature and for the whole tree
+	for i, pr := range pairs {
+		add := func(cwd string, args ...string) {
+			cases = append(cases, c07Case{Tree: 100000 + i, Root: pr.a.Root, Cwd: cwd, Args: args}, c07Case{Tree: 100000 + i, Root: pr.b.Root, Cwd: cwd, Args: args})
+			perPair[i] = append(perPair[i], idx{len(cases) - 2, len(cases) - 1})
+		}
+		for fi, f := range c07RegistryFeatures {
+			if (fi+i)%3 == 0 {
+				add("cat/reg-"+f, "-Wall")
+			} else {
+				add(".", "-Wall", "-Cglobal", "cat/reg-"+f)
+			}
+		}
+		add(".", "-Wall", "-Cglobal", "-r", ".")
+		add("cat", "-Wall", "-Cglobal", "-r", ".")
+	}
+	fresh := make([][]c07Out, len(cases))
+	for i := range fresh {
+		fresh[i] = make([]c07Out, 3)
+	}
+	parallelFor(len(cases)*3, func(j int) { fresh[j/3][j%3] = c07Fresh(ctx, cases[j/3], fmt.Sprintf("rf%d", j)) })
+	res.Evaluations += len(cases) * 3
+	unstable := make([]bool, len(cases))
+	for ci := range cases {
+		for k := 1; k < 3; k++ {
+			if !fresh[ci][0].same(fresh[ci][k]) {
+				unstable[ci] = true
+				c07ReportNondet(ctx, res, cases[ci], fresh[ci][0], fresh[ci][k], "fresh processes")
+			}
+		}
+	}
+	distinguishing := map[string]int{}
+	for i := range pairs {
+		for fi, f := range c07RegistryFeatures {
+			ix := perPair[i][fi]
+			if fresh[ix.a][0].Stdout != fresh[ix.b][0].Stdout {
+				distinguishing[f]++
+			}
+		}
+	}
+	nd := 0
+	for _, f := range c07RegistryFeatures {
+		res.Count("registry.distinguishing."+f, distinguishing[f])
+		if distinguishing[f] == npairs {
+			nd++
+		}
+	}
+	// sequences: per pair, A,B,A for every feature then the whole tree; B,A,B likewise; and both with the whole-tree runs first
+	type seqJob struct {
+		name  string
+		steps []int
+	}
+	var jobs []seqJob
+	for i := range pairs {
+		var aba, bab, aba2, bab2 []int
+		n := len(perPair[i])
+		for k, ix := range perPair[i] {
+			aba = append(aba, ix.a, ix.b, ix.a)
+			bab = append(bab, ix.b, ix.a, ix.b)
+			rx := perPair[i][n-1-k]
+			aba2 = append(aba2, rx.a, rx.b, rx.a)
+			bab2 = append(bab2, rx.b, rx.a, rx.b)
+		}
+		jobs = append(jobs, seqJob{fmt.Sprintf("reg%d-aba", i), aba}, seqJob{fmt.Sprintf("reg%d-bab", i), bab},
+			seqJob{fmt.Sprintf("reg%d-aba-rev", i), aba2}, seqJob{fmt.Sprintf("reg%d-bab-rev", i), bab2})
+	}
+	outs := make([][]c07Out, len(jobs))
+	errs := make([]error, len(jobs))
+	parallelFor(len(jobs), func(j int) {
+		steps := make([]c07Case, len(jobs[j].steps))
+		for k, ci := range jobs[j].steps {
+			steps[k] = cases[ci]
+		}
+		outs[j], errs[j] = c07Seq(ctx, jobs[j].name, steps)
+	})
+	for j, job := range jobs {
+		if errs[j] != nil {
+			res.Broken = errs[j].Error()
+			return
+		}
+		reported := 0
+		for k, ci := range job.steps {
+			res.Evaluations++
+			res.TracesValidated++
+			res.Count("registry.inprocess-runs", 1)
+			if unstable[ci] || outs[j][k].same(fresh[ci][0]) {
+				continue
+			}
+			if reported < 3 { // the confirmation runs are expensive; one sequence shows a leak at most a few times anyway
+				lo := k - 2
+				if lo < 0 {
+					lo = 0
+				}
+				// first try with the two direct predecessors (the A,B,A triple); fall back to the whole prefix
+				before := len(res.Violations)
+				c07ReportInProcess(ctx, res, cases, job.steps[lo:k+1], outs[j][k], fresh[ci][0])
+				if len(res.Violations) == before {
+					c07ReportInProcess(ctx, res, cases, job.steps[:k+1], outs[j][k], fresh[ci][0])
+				}
+				reported++
+			}
+		}
+	}
+	if nd < 8 && len(res.Violations) == 0 {
+		res.Broken = fmt.Sprintf("only %d of %d registry features distinguish the registering tree from the using tree in every pair", nd, len(c07RegistryFeatures))
+	}
 }
 
 func pow(x float64, n int) float64 {
